@@ -120,7 +120,7 @@ mod kani_c18 {
         match &s.state {
             ClientState::Discovering(d) => us(d.retry_at) <= us(now) + s.retry_config.discover_timeout.total_micros() as i128,
             ClientState::Requesting(r) => us(r.retry_at) <= us(now) + backoff(s, (r.retry.max(1) as u32 - 1) / 2),
-            ClientState::Renewing(r) => r.rebinding || (r.renew_at <= r.rebind_at && r.rebind_at <= r.expires_at),
+            ClientState::Renewing(r) => r.renew_at <= r.rebind_at && (r.rebinding || r.rebind_at <= r.expires_at),   // T1 <= T2 also while rebinding (renew_at is then stale and in the past)
         }
     }
     fn in_range(s: &Socket) -> bool {
